@@ -61,6 +61,8 @@ func runHistory(ft fataler, f pools.Factory, ops []pools.Op, opt runOpt) (*model
 		reverse = p.Reverse
 	}
 	ep, _ := p.(pools.Epocher)
+	alt, _ := p.(pools.AltEntry)
+	snap, _ := p.(pools.Snapshotter)
 	touched := map[string]uint64{}
 	lapsedVal := map[string]bool{} // values whose holder's lease lapsed (not released) at some point: that holder's store record may linger
 	epoch := func() uint64 {
@@ -76,7 +78,7 @@ func runHistory(ft fataler, f pools.Factory, ops []pools.Op, opt runOpt) (*model
 			break
 		}
 		s := subs[op.S%len(subs)]
-		if (op.K == pools.OpRelease || op.K == pools.OpRenew) && op.V%4 != 0 {
+		if (op.K == pools.OpRelease || op.K == pools.OpRenew || op.K == pools.OpReleaseAlt || op.K == pools.OpDecline) && op.V%4 != 0 {
 			// 3 of 4 release/renew ops target a current holder (else most would be no-ops on small pools)
 			var holders []string
 			for _, x := range subs {
@@ -89,12 +91,23 @@ func runHistory(ft fataler, f pools.Factory, ops []pools.Op, opt runOpt) (*model
 			}
 		}
 		switch op.K {
-		case pools.OpAlloc:
+		case pools.OpAlloc, pools.OpAllocAlt:
 			if _, holds := m.has[s]; holds && opt.avoid["reask-changed"] {
 				continue
 			}
-			v, err := p.Alloc(s)
-			m.logf("alloc(%s)=%s,%s", s, v, okerr(err))
+			var v string
+			var err error
+			if op.K == pools.OpAllocAlt {
+				if alt == nil {
+					continue
+				}
+				v, err = alt.AllocAlt(s)
+				m.logf("allocAlt(%s)=%s,%s", s, v, okerr(err))
+				classes["alloc-alt"] = true
+			} else {
+				v, err = p.Alloc(s)
+				m.logf("alloc(%s)=%s,%s", s, v, okerr(err))
+			}
 			if err != nil {
 				if held, holds := m.has[s]; holds {
 					m.fail(ft, "reask-failed", "alloc(%s) failed (%v) although it holds %s", s, err, held)
@@ -106,9 +119,19 @@ func runHistory(ft fataler, f pools.Factory, ops []pools.Op, opt runOpt) (*model
 			}
 			m.onAlloc(ft, s, v, inRange, lookup)
 			touched[s] = epoch()
-		case pools.OpRelease:
-			err := p.Release(s)
-			m.logf("release(%s)=%s", s, okerr(err))
+		case pools.OpRelease, pools.OpReleaseAlt:
+			var err error
+			if op.K == pools.OpReleaseAlt {
+				if alt == nil {
+					continue
+				}
+				err = alt.ReleaseAlt(s)
+				m.logf("releaseAlt(%s)=%s", s, okerr(err))
+				classes["release-alt"] = true
+			} else {
+				err = p.Release(s)
+				m.logf("release(%s)=%s", s, okerr(err))
+			}
 			if err != nil {
 				if held, holds := m.has[s]; holds {
 					m.fail(ft, "release-failed", "release(%s) failed (%v) although it holds %s", s, err, held)
@@ -258,6 +281,19 @@ func runHistory(ft fataler, f pools.Factory, ops []pools.Op, opt runOpt) (*model
 				// peer's record extends the local lease); a new or moved assignment starts a lease now
 				touched[s] = epoch()
 			}
+		case pools.OpDecline:
+			d, ok := p.(pools.Decliner)
+			if !ok {
+				continue
+			}
+			d.Decline(s)
+			m.logf("decline(%s)", s)
+			if v, holds := m.has[s]; holds {
+				classes["decline"] = true
+				m.logf("(declined %s)", v)
+			}
+			m.onFree(s) // the binding ends; the value is taken out of service, not handed to anybody
+			delete(touched, s)
 		default:
 			continue
 		}
@@ -266,6 +302,9 @@ func runHistory(ft fataler, f pools.Factory, ops []pools.Op, opt runOpt) (*model
 		}
 		if lookup != nil {
 			m.crossCheck(ft, lookup, reverse)
+		}
+		if snap != nil && !m.dead {
+			m.stateCheck(ft, snap, inRange)
 		}
 	}
 	var cls []string
@@ -276,9 +315,12 @@ func runHistory(ft fataler, f pools.Factory, ops []pools.Op, opt runOpt) (*model
 			cls = append(cls, "advances>=3")
 		}
 	}
-	for _, c := range []string{"reask", "reload", "remote", "remote-identical"} {
+	for _, c := range []string{"reask", "reload", "remote", "remote-identical", "alloc-alt", "release-alt", "decline"} {
 		if classes[c] {
 			cls = append(cls, "has:"+c)
+			if c == "alloc-alt" || c == "release-alt" || c == "decline" {
+				cls = append(cls, "has:"+c+"/"+f.Impl)
+			}
 		}
 	}
 	return m, cls
@@ -300,14 +342,17 @@ func steer(rt *rapid.T, impl string, kinds ...string) map[string]bool {
 
 var baseKinds = []pools.Kind{pools.OpAlloc, pools.OpRelease}
 
+// altKinds adds the implementation's second entry point for the same requests (pools.AltEntry).
+var altKinds = []pools.Kind{pools.OpAlloc, pools.OpRelease, pools.OpAllocAlt, pools.OpReleaseAlt}
+
 func TestPropDistSession(t *testing.T) {
 	vstat.Checks(2500, 50000)
-	kinds := []pools.Kind{pools.OpAlloc, pools.OpRelease, pools.OpReload, pools.OpRemoteSet, pools.OpRemoteDel}
+	kinds := []pools.Kind{pools.OpAlloc, pools.OpRelease, pools.OpReload, pools.OpRemoteSet, pools.OpRemoteDel, pools.OpAllocAlt}
 	rapid.Check(t, func(rt *rapid.T) {
 		g := pools.GenGeom(true, true).Draw(rt, "geometry")
 		echo := rapid.Bool().Draw(rt, "echo")
 		f := pools.DistFactory(g.CIDR, g.Unit, false, 0, echo, g.Class, nil)
-		ops := pools.GenOps(kinds, []int{8, 4, 1, 2, 1}, len(subs), 1, 40).Draw(rt, "ops")
+		ops := pools.GenOps(kinds, []int{6, 4, 1, 2, 1, 3}, len(subs), 1, 40).Draw(rt, "ops")
 		m, cls := runHistory(rt, f, ops, runOpt{})
 		m.record(cls...)
 	})
@@ -315,12 +360,12 @@ func TestPropDistSession(t *testing.T) {
 
 func TestPropDistLease(t *testing.T) {
 	vstat.Checks(2500, 50000)
-	kinds := []pools.Kind{pools.OpAlloc, pools.OpRelease, pools.OpRenew, pools.OpAdvance, pools.OpReload, pools.OpRemoteSet, pools.OpRemoteDel}
+	kinds := []pools.Kind{pools.OpAlloc, pools.OpRelease, pools.OpRenew, pools.OpAdvance, pools.OpReload, pools.OpRemoteSet, pools.OpRemoteDel, pools.OpAllocAlt}
 	rapid.Check(t, func(rt *rapid.T) {
 		cidr := pools.GenEpochNet(false).Draw(rt, "net")
 		grace := rapid.SampledFrom([]int{0, 1, 1, 2}).Draw(rt, "grace")
 		echo := rapid.Bool().Draw(rt, "echo")
-		ops := pools.GenOps(kinds, []int{8, 3, 3, 4, 1, 2, 1}, len(subs), 1, 40).Draw(rt, "ops")
+		ops := pools.GenOps(kinds, []int{6, 3, 3, 4, 1, 2, 1, 3}, len(subs), 1, 40).Draw(rt, "ops")
 		opt := runOpt{avoid: steer(rt, "dist-lease", "reload-changed", "remote-not-applied")}
 		var m *model
 		var cls []string
@@ -343,7 +388,7 @@ func TestPropLocalAlloc(t *testing.T) {
 		if rapid.Bool().Draw(rt, "direct") {
 			f = pools.PoolAllocFactory(g.CIDR, g.Unit, g.Class, false)
 		}
-		ops := pools.GenOps(baseKinds, []int{2, 1}, len(subs), 1, 40).Draw(rt, "ops")
+		ops := pools.GenOps(altKinds, []int{3, 3, 2, 0}, len(subs), 1, 40).Draw(rt, "ops")
 		m, cls := runHistory(rt, f, ops, runOpt{})
 		m.record(cls...)
 	})
@@ -364,14 +409,17 @@ func TestPropDHCP6(t *testing.T) {
 	vstat.Checks(2500, 50000)
 	rapid.Check(t, func(rt *rapid.T) {
 		var f pools.Factory
+		kinds, weights := baseKinds, []int{2, 1}
 		if rapid.Bool().Draw(rt, "pd") {
 			g := pools.GenV6PD().Draw(rt, "pd-geometry")
 			f = pools.V6PrefixFactory(g.CIDR, g.Unit, g.Class)
 		} else {
 			g := pools.GenV6Addr().Draw(rt, "addr-geometry")
 			f = pools.V6AddrFactory(g.CIDR, g.Class)
+			// the address pool also has Decline (DHCPv6 Decline: binding ends, address taken out of service)
+			kinds, weights = []pools.Kind{pools.OpAlloc, pools.OpRelease, pools.OpDecline}, []int{5, 2, 2}
 		}
-		ops := pools.GenOps(baseKinds, []int{2, 1}, len(subs), 1, 40).Draw(rt, "ops")
+		ops := pools.GenOps(kinds, weights, len(subs), 1, 40).Draw(rt, "ops")
 		m, cls := runHistory(rt, f, ops, runOpt{})
 		m.record(cls...)
 	})
@@ -393,7 +441,7 @@ func TestPropPeerLocal(t *testing.T) {
 	rapid.Check(t, func(rt *rapid.T) {
 		n := pools.GenV4Net().Draw(rt, "net")
 		f := pools.PeerFactory(n.CIDR, n.Gateway, n.Class)
-		ops := pools.GenOps(baseKinds, []int{2, 1}, len(subs), 1, 40).Draw(rt, "ops")
+		ops := pools.GenOps(altKinds, []int{3, 2, 3, 2}, len(subs), 1, 40).Draw(rt, "ops")
 		m, cls := runHistory(rt, f, ops, runOpt{})
 		m.record(cls...)
 	})
